@@ -126,6 +126,10 @@ def cases15(ck, rnd, loop):
             cemi = sender[1][-1]
             raw = bytearray(cemi.to_knx())
             raw[0] = 0x29
+            if rep == 1 or rnd.random() < 0.3:              # a corrupted copy (one flipped bit in payload or MAC) reaches the receiver first
+                bad = bytearray(raw)
+                bad[rnd.randrange(18, len(bad))] ^= 1 << rnd.randrange(8)
+                receive(loop, receiver, bytes(bad))
             r = receive(loop, receiver, bytes(raw))
             got = r["tg"]
             out.append(({"p": "C15", "n": ln, "out": r["out"], "same": 1 if got is not None and got.payload == pl else 0,
@@ -158,6 +162,14 @@ def cases16(ck, rnd, loop):
             pl = apci.GroupValueWrite(DPTArray(tuple(rnd.randrange(256) for _ in range(ln - 1)))) if ln > 1 else apci.GroupValueRead()
             seq = rnd.randrange(1, 2**47)
             raw = secure_frame(key, "1.1.7", GA, "group", seq, pl.to_knx(), alg_enc)
+            if ln >= 3:                                          # a payload ending in zero octets, which are then stripped (MAC kept, length adjusted)
+                plz = apci.GroupValueWrite(DPTArray(tuple([rnd.randrange(1, 256)] * (ln - 2) + [0] if ln > 2 else [0])))
+                rawz = secure_frame(key, "1.1.7", GA, "group", seq, plz.to_knx(), alg_enc)
+                tz = bytearray(rawz[:-5] + rawz[-4:])
+                tz[8] = (tz[8] - 1) % 256
+                receiver = make_node(key, ["1.1.7"], loop)
+                rz = receive(loop, receiver, bytes(tz))
+                out.append(({"p": "C16", "mut": "resized", "n": ln, "bit": -1, "out": rz["out"], "same": 0}, bytes(tz).hex()))
 
             def try_frame(mutated, mut, bit=-1, key2=None, senders=("1.1.7",)):
                 receiver = make_node(key2 or key, list(senders), loop)
@@ -176,6 +188,13 @@ def cases16(ck, rnd, loop):
                 t[8] = (t[8] - cut) % 256                   # keep the NPDU length consistent with the shorter frame
                 try_frame(bytes(t), "truncated")
             try_frame(raw, "othersrc", senders=("1.1.8",))     # the sender is not in the receiver's table
+            for k in (1, 2, 3):                                  # zero octets appended to the secured APDU, MAC kept, NPDU length adjusted
+                t = bytearray(raw[:-4] + bytes(k) + raw[-4:])
+                t[8] = (t[8] + k) % 256
+                try_frame(bytes(t), "resized")
+            z = bytearray(raw)
+            while len(z) > 23 and z[-5] == 0 and False:
+                pass
     return out
 
 
@@ -201,6 +220,24 @@ def cases18(ck, rnd, loop):
             _sync(node[0].cemi_handler.send_telegram(Telegram(GroupAddress(ga), payload=pl)), loop)
             raw = node[1][-1].to_knx()
             out.append(({"p": "C18", "kind": "out", "keyed": keyed, "onwire_secure": 1 if (raw[9] & 0x03) == 0x03 and raw[10] == 0xF1 else 0}, raw.hex()))
+    # the sending sequence number runs out: telegrams to a secured address are refused, never sent plain
+    from xknx.exceptions import DataSecureError
+
+    node = make_node(key, [], loop)
+    node[0].cemi_handler.data_secure._sequence_number_sending = 2**48 - 2
+    for i in range(5):
+        before = len(node[1])
+        try:
+            _sync(node[0].cemi_handler.send_telegram(Telegram(GroupAddress(GA), payload=apci.GroupValueWrite(DPTBinary(i % 2)))), loop)
+        except DataSecureError:
+            pass
+        except Exception as ex:  # noqa: BLE001 - any refusal at the call
+            pass
+        if len(node[1]) > before:
+            raw = node[1][-1].to_knx()
+            out.append(({"p": "C18", "kind": "out", "keyed": 1, "onwire_secure": 1 if (raw[9] & 0x03) == 0x03 and raw[10] == 0xF1 else 0}, raw.hex()))
+        else:
+            out.append(({"p": "C18", "kind": "out", "keyed": 1, "onwire_secure": -1}, "nothing sent"))
     # correctly authenticated frames whose decrypted content is malformed
     bad_apdus = [b"", b"\x00", b"\x03", b"\x00\x80\x01" * 1 + b"", b"\x03\xD5", b"\x03\xD7\x01", b"\x02\xC0", b"\x03\xF1\x00\x00", b"\x07", b"\xFF\xFF", b"\x03\xE1", b"\x00\x3F" * 40]
     for apdu in bad_apdus + [bytes(rnd.randrange(256) for _ in range(rnd.randrange(1, 12))) for _ in range(40 if ck.tier == "quick" else 600)]:
